@@ -387,7 +387,18 @@ def attribute_known(base, observed, shared_checker, findings):
     the observed diagnostics are exactly the reference minus such diagnostics -- what the keyed-memo
     model predicts (C10_keyed_memo_needs_determining_key); anything else is a violation."""
     ids = {f["id"] for f in findings}
-    if "C10-protocol-positive-cache-key" not in ids or not shared_checker:
+    if not shared_checker or not isinstance(base, list) or not isinstance(observed, list):
+        return None
+    # Known finding C10-typed-value-str-slot: TypedValue.__str__ prints the TypeObject (with the
+    # suffix " (Protocol with members ...)") only when the memo slot _type_object of that shared
+    # TypedValue has been filled by an earlier assignability check -- the text of a later diagnostic
+    # then differs by exactly such suffixes.  Attributed only under a shared Checker and when the two
+    # renderings are equal after deleting these suffixes.
+    if "C10-typed-value-str-slot" in ids and len(base) == len(observed):
+        strip = lambda ds: [[d[0], d[1], d[2], re.sub(r" \(Protocol with members [^)]*\)", "", d[3])] for d in ds]  # noqa: E731
+        if strip(base) == strip(observed):
+            return "C10-typed-value-str-slot"
+    if "C10-protocol-positive-cache-key" not in ids:
         return None
     if not isinstance(base, list) or not isinstance(observed, list) or len(observed) >= len(base):
         return None
